@@ -4,7 +4,7 @@
 From Coq Require Import List ZArith Bool Lia.
 From RecordUpdate Require Import RecordUpdate.
 From GB Require Import Model.Allowance Model.Batcher Model.Shared Proofs.Tactics Proofs.SharedInv.
-From GB Require Import Gen.Facts.
+From GB Require Import Gen.Facts Proofs.FactsChecks.
 Import ListNotations.
 Open Scope Z_scope.
 
@@ -83,6 +83,15 @@ Definition provisioned_capacity (maxcap : Z) : Z := maxcap.
 Definition provisioned_max_capacity (maxcap : Z) : Z := maxcap.
 Theorem C06_provisioned_resource : forall m, provisioned_capacity m = provisioned_max_capacity m.
 Proof. reflexivity. Qed.
+
+(* tie to the source: calc() counts the table and stores the result under the partition lock in both generations
+   (facts regenerated from the Go sources on every run), which is what makes the model's atomic calc faithful *)
+Module SrcCalc.
+Import String.
+Theorem C06_recalculation_is_atomic :
+  calc_store_locked FV1 "AzureSharedResource.calc" = true /\ calc_store_locked FV2 "sharedResource.calc" = true.
+Proof. split; vm_compute; reflexivity. Qed.
+End SrcCalc.
 
 Theorem C06_source_constants : V1_partition_limit = max_partitions /\ V2_partition_limit = max_partitions.
 Proof. split; reflexivity. Qed.
